@@ -1,7 +1,7 @@
 """C10 — A deletion request can never remove another author's events."""
 from ._store import run_store
 
-THEOREMS = []
+THEOREMS = ['foreign_delete_harmless', 'no_marker_on_foreign_event', 'no_marker_on_foreign_address', 'foreign_history_harmless']
 
 
 def run():
